@@ -1,39 +1,14 @@
-import GohtVerif.Model.Emit
+import GohtVerif.Model.SourceMap
 namespace GL
-
-def splitNl (s : GoStr) : List GoStr :=
-  let rec go (cur : GoStr) : GoStr → List GoStr
-    | [] => [cur.reverse]
-    | b :: rest => if b == 10 then cur.reverse :: go [] rest else go (b :: cur) rest
-  go [] s
-
-structure Entry where
-  sl : Int
-  sc : Int
-  tl : Int
-  tc : Int
-deriving Repr
-
-/-- SourceMap.Add as a list of per-character writes (both tables are written with the same pairs). -/
-def smAdd (t : Tok) (r : Range) : List Entry :=
-  let lines := splitNl t.lit
-  let rec go (i : Nat) : List GoStr → List Entry
-    | [] => []
-    | line :: rest =>
-      let srcLine := t.line + i - 1
-      let tgtLine := r.frm.line + i - 1
-      let srcCol : Int := if i == 0 then t.col - 1 else 0
-      let tgtCol : Int := if i == 0 then r.frm.col - 1 else 0
-      ((List.range (line.length + 1)).map fun (ci : Nat) =>
-        { sl := srcLine, sc := srcCol + (ci : Int), tl := tgtLine, tc := tgtCol + (ci : Int) : Entry }) ++ go (i+1) rest
-  go 0 lines
 
 structure CompileOut where
   lexOutcome : Outcome
   err : Option PErr
   text : GoStr
-  entries : List Entry
+  frags : List Frag          -- the Add log as runs, newest first
   emitErr : Option String
+
+def CompileOut.entries (c : CompileOut) : List Entry := (c.frags.reverse.map Frag.entries).flatten
 
 def compile (input : GoStr) : CompileOut :=
   let (toks, oc0) := lexBytes input
@@ -44,7 +19,7 @@ def compile (input : GoStr) : CompileOut :=
   match emitNode tree false none {} {} with
   | .ok (g, _) =>
     { lexOutcome := oc, err := err, text := g.text,
-      entries := (g.log.reverse.map fun (t, r) => smAdd t r).flatten, emitErr := none }
-  | .error e => { lexOutcome := oc, err := err, text := [], entries := [], emitErr := some e }
+      frags := (g.log.map fun (t, r) => (fragsOfAdd t r).reverse).flatten, emitErr := none }
+  | .error e => { lexOutcome := oc, err := err, text := [], frags := [], emitErr := some e }
 
 end GL
